@@ -289,6 +289,20 @@ def run(ck):
             else:
                 continue
             scen.append((sc, "TLC simulation without overlap", x["e"], False))
+        # directed: a connection arrives while a change is inside its (failing) save of the configuration file, after the outdated proxies were
+        # closed and before the router is rebuilt; probes follow
+        for v in ("http:listener", "http:headerHost", "tcp"):
+            for h in HOSTS[:2]:
+                init = {g: "none" for g in HOSTS}
+                init[h] = "t1"
+                new = dict(init)
+                new[h] = "t2"
+                kind = {g: "tcp" if v == "tcp" else v for g in HOSTS}
+                steps = [dict(do="start", op="conn1", h=h), dict(do="run", op="conn1"),
+                         dict(do="start", op="chg1", kind="rebuild-nosave", new=new), dict(do="step", op="chg1"),
+                         dict(do="start", op="conn2", h=h), dict(do="run", op="chg1"), dict(do="run", op="conn2")]
+                sc = dict(name="conn-during-save-%s-%s" % (v, h), init=init, kind=kind, steps=steps, probe=True)
+                scen.append((sc, "directed: connection during the save", None, False))
         if nref < len(combos) or nrem < len(rkinds):
             raise vf.Infra("generation gave only %d value-change and %d removal behaviours after a served connection" % (nref, nrem))
         outs = ck.drive(binary, ["conn", d], input_lines=[s[0] for s in scen], timeout=1200)
